@@ -24,9 +24,10 @@ Definition quiet (i : nat) (g g' : gst) : Prop :=
   n_val (node_at i g') = n_val (node_at i g) /\ n_lmt (node_at i g') = n_lmt (node_at i g) /\
   forall m, m <> i -> slot_at m g' = slot_at m g.
 
-(* it wrote: its output is modified now, and exactly its started active readers are due now *)
+(* it notified the observers of its output now - it WROTE (n_val = Some _) or it INVALIDATED its
+   output (OInvalidate: n_val = None) - and exactly its started subscribed readers are due now *)
 Definition fwrote (i : nat) (g g' : gst) : Prop :=
-  n_lmt (node_at i g') = g_now g /\ n_val (node_at i g') <> None /\
+  n_lmt (node_at i g') = g_now g /\
   (forall m, m <> i -> slot_at m g' = slot_at m g \/ (ract g i m = true /\ slot_at m g' = g_now g)) /\
   (forall m, m <> i -> (m < n)%nat -> (m < length (g_slots g))%nat -> ract g i m = true ->
              n_started (node_at m g) = true -> slot_at m g' = g_now g).
@@ -53,7 +54,7 @@ Proof.
   - congruence.
   - lia.
   - intros H. rewrite <- A1. apply B7. rewrite A1. auto.
-  - destruct A8 as [(Q1 & Q2 & Q3)|(S1 & W1 & W2 & W3 & W4)]; destruct B8 as [(R1 & R2 & R3)|(S2 & V1 & V2 & V3 & V4)].
+  - destruct A8 as [(Q1 & Q2 & Q3)|(S1 & W1 & W3 & W4)]; destruct B8 as [(R1 & R2 & R3)|(S2 & V1 & V3 & V4)].
     + left. repeat split; try congruence. intros m Hm. rewrite R3, Q3; auto.
     + right. split; auto. repeat split; try congruence.
       * intros m Hm. destruct (V3 m Hm) as [X|[X Y]]; [left; rewrite X; auto|right; split; [|congruence]].
@@ -190,35 +191,40 @@ Proof.
       * rewrite <- A1. apply B7; auto; try (simpl in Hm; lia); [rewrite RA; auto|rewrite ND; auto].
 Qed.
 
-(* writing the output and notifying the subscribers *)
-Lemma frame_write i v g :
+(* changing the output (a write or an invalidation) and notifying the subscribers *)
+Lemma frame_notify i f g :
+  (forall x, n_lmt (f x) = g_now g /\ n_started (f x) = n_started x) ->
   (i < length (g_nodes g))%nat ->
-  frame true i g (notify_from cfgs 0 i (upd_node i (set_out v (g_now g)) g)).
+  frame true i g (notify_from cfgs 0 i (upd_node i f g)).
 Proof.
-  intros Hi.
-  set (g1 := upd_node i (set_out v (g_now g)) g).
+  intros Hf Hi.
+  set (g1 := upd_node i f g).
   assert (Hl : forall m c, nth_error cfgs m = Some c -> c = cfg (0 + m)).
   { intros m c Hm. apply (cfgs_nth_error cfgs m c Hm). }
   destruct (notify_spec cfgs 0%nat i g1 Hl) as (B1 & B2 & B3 & B4 & B5 & B6 & B7).
   assert (ND : forall m, node_at m (notify_from cfgs 0 i g1) = node_at m g1) by (intros; unfold node_at; rewrite B2; auto).
-  assert (NI : node_at i g1 = set_out v (g_now g) (node_at i g)) by (apply node_at_upd_same; auto).
+  assert (NI : node_at i g1 = f (node_at i g)) by (apply node_at_upd_same; auto).
   constructor.
   - rewrite B1. reflexivity.
   - rewrite B5. reflexivity.
   - rewrite B2. unfold g1, upd_node; simpl. apply update_length.
   - intros m Hm. rewrite ND. apply node_at_upd_other; auto.
-  - rewrite ND, NI. reflexivity.
+  - rewrite ND, NI. apply Hf.
   - rewrite B3. simpl. lia.
   - rewrite B3. simpl. auto.
   - right. split; auto. repeat split.
-    + rewrite ND, NI. reflexivity.
-    + rewrite ND, NI. simpl. discriminate.
+    + rewrite ND, NI. apply Hf.
     + intros m Hm. destruct (B6 m) as [X|(_ & X2 & X3)]; [left; exact X|right; split; auto].
       rewrite <- X2. symmetry. apply ract_act. unfold g1. rewrite node_at_upd_other; auto.
     + intros m Hm Hn Hlen Ha Hs. apply B7; auto; try (simpl; lia).
       * rewrite <- Ha. apply ract_act. unfold g1. rewrite node_at_upd_other; auto.
       * unfold g1. rewrite node_at_upd_other; auto.
 Qed.
+
+Lemma frame_write i v g :
+  (i < length (g_nodes g))%nat ->
+  frame true i g (notify_from cfgs 0 i (upd_node i (set_out v (g_now g)) g)).
+Proof. intros Hi. apply frame_notify; [intros x; split; reflexivity|auto]. Qed.
 
 Lemma set_sch_keeps s x : n_val (set_sch s x) = n_val x /\ n_lmt (set_sch s x) = n_lmt x /\ n_started (set_sch s x) = n_started x.
 Proof. repeat split. Qed.
@@ -247,6 +253,10 @@ Proof.
   - apply frame_set_err.
   - apply frame_upd. intros x. repeat split.
   - apply frame_upd. intros x. repeat split.
+  - destruct (c_out _ && st) eqn:E; [|apply frame_refl].
+    assert (st = true) by (apply andb_true_iff in E; tauto). subst st.
+    destruct (n_val (node_at i g)); [|apply frame_emit].
+    eapply frame_trans; [|apply frame_emit]. apply frame_notify; [intros x; split; reflexivity|auto].
   - apply frame_refl.
 Qed.
 
@@ -469,7 +479,7 @@ Record eff (t : Z) (j : nat) (x x' : xst) : Prop := {
       end) \/ (slot_at s (f_g x) <> t /\ same_out s (f_g x) (f_g x'));
   e_prod : j = p ->
      (same_out p (f_g x) (f_g x') /\ slot_at k (f_g x') = slot_at k (f_g x)) \/
-     (n_lmt (node_at p (f_g x')) = t /\ n_val (node_at p (f_g x')) <> None /\ slot_at k (f_g x') = t);
+     (n_lmt (node_at p (f_g x')) = t /\ slot_at k (f_g x') = t);
   e_sink : j = k ->
      (slot_at k (f_g x) = t /\ exists v, n_val (node_at p (f_g x)) = Some v /\ state_at s x' = Some v /\
         (slot_at s (f_g x) <= t -> slot_at s (f_g x') = t + 1 /\ g_nst (f_g x') <= t + 1)) \/
@@ -515,15 +525,15 @@ Proof.
       * lia.
       * intros m Hm. rewrite F4, G0o; auto.
       * reflexivity.
-      * intros _. destruct F8 as [(Q1 & Q2 & Q3)|(_ & W1 & W2 & W3 & W4)].
+      * intros _. destruct F8 as [(Q1 & Q2 & Q3)|(_ & W1 & W3 & W4)].
         -- rewrite Q3; auto.
         -- destruct (W3 s ltac:(auto)) as [X|[X _]]; [rewrite X; auto|]. rewrite ract_source in X; auto. discriminate.
-      * intros Hp. destruct F8 as [(Q1 & Q2 & Q3)|(_ & W1 & W2 & W3 & W4)].
+      * intros Hp. destruct F8 as [(Q1 & Q2 & Q3)|(_ & W1 & W3 & W4)].
         -- rewrite Q3; auto.
         -- destruct (W3 k ltac:(auto)) as [X|[X _]]; [rewrite X; auto|]. apply (ract_sink cfgs g0 j k p s HC AK0) in X. contradiction.
-      * intros ->. destruct F8 as [(Q1 & Q2 & Q3)|(_ & W1 & W2 & W3 & W4)].
+      * intros ->. destruct F8 as [(Q1 & Q2 & Q3)|(_ & W1 & W3 & W4)].
         -- left. split; [split|]; try (rewrite Q3; auto). rewrite Q1; apply G0s. rewrite Q2; apply G0s.
-        -- right. split; [congruence|]. split; auto. rewrite <- G0n. apply W4; auto; try lia.
+        -- right. split; [congruence|]. rewrite <- G0n. apply W4; auto; try lia.
            ++ apply (ract_sink_prod cfgs g0 k p s HC AK0).
            ++ rewrite (proj1 (G0s k)). auto.
     + (* a feedback source *)
@@ -543,10 +553,10 @@ Proof.
       * intros m Hm. rewrite F4, G0o; auto.
       * intros _. unfold state_at. rewrite S1. reflexivity.
       * intros _. destruct (Nat.eq_dec j s) as [->|Njs]; [rewrite S2; auto|].
-        destruct F8 as [(Q1 & Q2 & Q3)|(_ & W1 & W2 & W3 & W4)].
+        destruct F8 as [(Q1 & Q2 & Q3)|(_ & W1 & W3 & W4)].
         -- rewrite Q3; auto.
         -- destruct (W3 s ltac:(auto)) as [X|[X _]]; [rewrite X; auto|]. rewrite ract_source in X; auto. discriminate.
-      * intros Hp. destruct F8 as [(Q1 & Q2 & Q3)|(_ & W1 & W2 & W3 & W4)].
+      * intros Hp. destruct F8 as [(Q1 & Q2 & Q3)|(_ & W1 & W3 & W4)].
         -- rewrite Q3; auto.
         -- destruct (W3 k ltac:(auto)) as [X|[X _]]; [rewrite X; auto|]. apply (ract_sink cfgs g0 j k p s HC AK0) in X. contradiction.
       * intros ->. left. split; auto.
@@ -554,9 +564,9 @@ Proof.
         destruct (state_at s x) as [v|].
         -- rewrite <- G0n. exact S3.
         -- destruct S3 as [X Y]. split; [rewrite X|rewrite Y]; apply G0s.
-      * intros ->. destruct F8 as [(Q1 & Q2 & Q3)|(_ & W1 & W2 & W3 & W4)].
+      * intros ->. destruct F8 as [(Q1 & Q2 & Q3)|(_ & W1 & W3 & W4)].
         -- left. split; [split|]; try (rewrite Q3; auto). rewrite Q1; apply G0s. rewrite Q2; apply G0s.
-        -- right. split; [congruence|]. split; auto. rewrite <- G0n. apply W4; auto; try lia.
+        -- right. split; [congruence|]. rewrite <- G0n. apply W4; auto; try lia.
            ++ apply (ract_sink_prod cfgs g0 k p s HC AK0).
            ++ rewrite (proj1 (G0s k)). auto.
     + (* a feedback sink *)
@@ -660,9 +670,9 @@ Proof.
   - intros Hle. rewrite E2 by lia. apply P5. lia.
   - (* sink slot <= t *)
     destruct (Nat.eq_dec j p) as [->|Hne]; [|rewrite E5; auto].
-    destruct (E7 eq_refl) as [[_ X]|[_ [_ X]]]; [rewrite X; auto|lia].
+    destruct (E7 eq_refl) as [[_ X]|[_ X]]; [rewrite X; auto|lia].
   - intros Hle. destruct (Nat.eq_dec j p) as [->|Hne].
-    + destruct (E7 eq_refl) as [[[X Y] Z']|[X [_ Z']]].
+    + destruct (E7 eq_refl) as [[[X Y] Z']|[X Z']].
       * rewrite Z', Y. apply P7. lia.
       * rewrite X, Z'. tauto.
     + rewrite E5, E2 by auto. apply P7. lia.
@@ -1008,8 +1018,8 @@ Proof.
   - rewrite ND, NS, Q4. lia.
   - rewrite SL, NS, Q6. lia.
   - rewrite SL, NS.
-    assert (St : state_at s {| f_g := seed_cache g1; f_st := map init_of kinds |} = init).
-    { unfold state_at; simpl. change None with (init_of FNative). rewrite map_nth. fold (kind s). rewrite HS. reflexivity. }
+    assert (St : state_at s {| f_g := seed_cache g1; f_st := map state0_of kinds |} = state0_of (FSource init)).
+    { unfold state_at; simpl. change None with (state0_of FNative). rewrite map_nth. fold (kind s). rewrite HS. reflexivity. }
     rewrite St, Q7'. clear St HS.
     destruct init as [v|]; [|lia]. split; auto. rewrite NI; congruence.
 Qed.
@@ -1287,4 +1297,20 @@ Proof.
   destruct (negb (n_started (node_at i (f_g x)))); simpl; auto.
   destruct (ready (nth i cfgs dflt_cfg) (f_g x)); simpl; auto.
   destruct (schedule_node_spec (sink_src (nth i cfgs dflt_cfg)) (g_now (f_g x) + MIN_TD) (f_g x)) as (_ & N & _). exact N.
+Qed.
+
+(* a producer that INVALIDATED its output (OInvalidate) does notify the sink - it is an active
+   subscriber - but evaluate_feedback_sink sits behind the node gate valid_inputs = {0}: with the
+   producer invalid the callback does not run.  Nothing is captured, nothing is scheduled: an
+   invalidation is not forwarded through a feedback, the reader side keeps the last delivered value. *)
+Lemma sink_ignores_invalid_producer_l cfgs j x p s :
+  EngineFacts.cfg cfgs j = sink_cfg p s -> n_val (node_at p (f_g x)) = None ->
+  let x' := eval_sink cfgs j x in
+  g_nodes (f_g x') = g_nodes (f_g x) /\ f_st x' = f_st x /\ g_slots (f_g x') = g_slots (f_g x) /\
+  g_nst (f_g x') = g_nst (f_g x).
+Proof.
+  intros Hc Hv. cbn zeta. unfold eval_sink. fold (EngineFacts.cfg cfgs j). rewrite Hc. cbn zeta.
+  destruct (negb (n_started (node_at j (f_g x)))); [repeat split|].
+  destruct (ready (sink_cfg p s) (f_g x)) eqn:Er; [|repeat split].
+  apply ready_sink in Er. congruence.
 Qed.
